@@ -506,6 +506,16 @@ fn gen_data(r: &mut Xo, n: usize, p: usize, f32m: bool) -> (Vec<Vec<f64>>, &'sta
             }
         }
     }
+    // sometimes give every column its own scale and offset (exactly representable factors keep lattices exact)
+    if r.chance(0.25) {
+        let cs: Vec<f64> = (0..p).map(|_| *r.pick(&[0.125, 1.0, 4.0, 64.0, 1024.0])).collect();
+        let co: Vec<f64> = (0..p).map(|_| *r.pick(&[0.0, 0.0, -512.0, 4096.0])).collect();
+        for row in data.iter_mut() {
+            for (j, v) in row.iter_mut().enumerate() {
+                *v = *v * cs[j] + co[j];
+            }
+        }
+    }
     if f32m {
         for row in data.iter_mut() {
             for v in row.iter_mut() {
@@ -592,7 +602,8 @@ fn gen_case(batch: &str, _index: u64, seed: u64) -> Case {
     let max_iter = *pr.pick(&[1usize, 1, 2, 2, 3, 5, 10, 30, 100, 100]);
     let nq = pr.usize_in(0, 6);
     let s = scale_of(&data, &[]).max(1e-3);
-    let mut queries: Vec<Vec<f64>> = (0..nq).map(|_| (0..p).map(|_| s * pr.range(-2.0, 2.0)).collect()).collect();
+    let far = if pr.chance(0.2) { 100.0 } else { 1.0 };
+    let mut queries: Vec<Vec<f64>> = (0..nq).map(|_| (0..p).map(|_| far * s * pr.range(-2.0, 2.0)).collect()).collect();
     if f32m {
         for q in queries.iter_mut() {
             for v in q.iter_mut() {
